@@ -272,3 +272,53 @@ func VerifC09_Subscribers() {
 		}
 	}
 }
+
+// VerifC09_LongHistory: a history longer than any internal batch or
+// pre-allocation size (1024..1030 certificates after the last power-table
+// checkpoint, real checkpoint frequency 1440): range reads return exactly the
+// stored certificates (and report the first missing one), the power table of
+// the next instance is derivable, and the store reopens.
+func VerifC09_LongHistory() {
+	ctx := context.Background()
+	ds := newVerifDS()
+	cs, err := CreateStore(ctx, ds, 0, verifTableSeq(0))
+	sym.Assume(err == nil)
+	n := 1024 + 6*sym.Choice("length-class", 2) // 1024 or 1030
+	tables := []gpbft.PowerEntries{verifTableSeq(0)}
+	var first, last *certs.FinalityCertificate
+	for j := 0; j < n; j++ {
+		next := tables[j]
+		if j == 1 {
+			next = verifTableSeq(1) // one committee change early on
+		}
+		c := verifCert(uint64(j), int64(10+2*j), 1, tables[j], next)
+		if err := cs.Put(ctx, c); err != nil {
+			sym.Assert(false, "long-history-put-succeeds")
+			return
+		}
+		tables = append(tables, next)
+		if j == 0 {
+			first = c
+		}
+		last = c
+	}
+	sym.Cover("stored")
+	check := func(cs *Store, when string) {
+		all, err := cs.GetRange(ctx, 0, uint64(n-1))
+		sym.Assert(err == nil && len(all) == n && verifCertEq(&all[0], first) && verifCertEq(&all[n-1], last), when+":range-returns-exactly-the-stored-certificates")
+		more, err := cs.GetRange(ctx, 0, uint64(n+70))
+		sym.Assert(errors.Is(err, ErrCertNotFound) && len(more) == n, when+":range-past-the-end-reports-the-first-missing-certificate")
+		pt, err := cs.GetPowerTable(ctx, uint64(n))
+		sym.Assert(err == nil && pt.Equal(tables[n]), when+":power-table-of-the-next-instance-derivable")
+		pt, err = cs.GetPowerTable(ctx, uint64(n-3))
+		sym.Assert(err == nil && pt.Equal(tables[n-3]), when+":power-table-inside-the-history-derivable")
+		l := cs.Latest()
+		sym.Assert(l != nil && verifCertEq(l, last), when+":latest")
+	}
+	check(cs, "live")
+	cs2, err := OpenStore(ctx, ds)
+	sym.Assert(err == nil, "long-history-reopens")
+	if err == nil {
+		check(cs2, "reopened")
+	}
+}
